@@ -255,6 +255,13 @@ func runApply(c *Ctx, p *Prog, S *stateRoles, want map[string]string) {
 				c.Violate(as, f.Construct, p.Pos(f.Pos), f.Msg, f.Trace)
 			}
 		}
+		// a return whose class cannot be decided leaves the lastOffset discipline undecided too
+		if strings.Contains(f.Construct, "result-class") {
+			if as, ok := want["C18.R4"]; ok && as != want["C19.R1"] {
+				hit[as] = true
+				c.Unresolved(as, f.Construct, f.Msg+" (so it is undecided whether lastOffset moves only on success)")
+			}
+		}
 	}
 	if as, ok := want["C18.R4"]; ok && !hit[as] {
 		c.Discharge(as, "Apply/lastOffset-discipline", p.Pos(S.apply.Pos()), "every nil return is preceded by exactly one store of event.Offset to lastOffset; no error return is")
